@@ -183,7 +183,23 @@ func runC06(c *Cfg) {
 		if i%3 == 0 {
 			cs.Family = "cancel-random"
 			cs.Stop = rg.IntN(2) == 0
-			cs.Cancel = &CancelSpec{Kind: []string{"cancel", "deadline"}[i%2], Item: rg.IntN(n), Attempt: 1}
+			cs.Cancel = &CancelSpec{Kind: []string{"cancel", "deadline", "cause"}[i%3], Item: rg.IntN(n), Attempt: 1}
+		}
+		if i%3 == 1 {
+			// the same node object has been run before: a stopped / failed earlier run must leave no trace
+			cs.Family = "after-earlier-run"
+			pn := 1 + rg.IntN(6)
+			pit := make([]ItemScript, pn)
+			for j := range pit {
+				pit[j].K = 1 + rg.IntN(budget+1)
+			}
+			pit[rg.IntN(pn)].K = budget + 1
+			cs.Prelude = &Prelude{N: pn, Items: pit, PostFail: rg.IntN(2) == 0}
+			if rg.IntN(2) == 0 {
+				for j := range cs.Items {
+					cs.Items[j].K = 1 // nothing fails in the observed run
+				}
+			}
 		}
 		return cs
 	}, func(i int, cs *BatchCase, o *BatchObs) {
@@ -306,7 +322,7 @@ func runC07(c *Cfg) {
 		runBatchRace(c, "C07")
 		return
 	}
-	nr := c.Pick(2000, 50000)
+	nr := c.Pick(6000, 100000)
 	gatedLoop(c, nr, func(i int) *BatchCase {
 		rg := c.Rng("c07", i)
 		n := 1 + rg.IntN(32)
@@ -327,6 +343,7 @@ func runC07(c *Cfg) {
 		} else {
 			cs.SleepUs = 20
 		}
+		cs.CtxLike = rg.IntN(4) == 0 // per-attempt timeouts: ordinary failures as far as the batch is concerned
 		return cs
 	}, func(i int, cs *BatchCase, o *BatchObs) {
 		r.Count("runs", 1)
@@ -356,13 +373,13 @@ func runC07(c *Cfg) {
 // runC02Batch: per-item retry/fallback exactness on small batches (every item of a batch).
 func runC02Batch(c *Cfg) {
 	r := c.Rep
-	nr := c.Pick(3000, 40000)
+	nr := c.Pick(8000, 80000)
 	gatedLoop(c, nr, func(i int) *BatchCase {
 		rg := c.Rng("c02b", i)
 		n := 1 + rg.IntN(6)
 		cc := rg.IntN(4)
 		budget := 1 + rg.IntN(8)
-		cs := &BatchCase{Family: "c02-batch", N: n, C: cc, Budget: budget, Items: genItems(rg, n, budget, 0), Shape: "results", ExecStyle: []string{"result", "any"}[rg.IntN(2)], PSeed: rg.Uint64(), SleepUs: 5}
+		cs := &BatchCase{Family: "c02-batch", N: n, C: cc, Budget: budget, Items: genItems(rg, n, budget, 0), Shape: "results", ExecStyle: []string{"result", "any"}[rg.IntN(2)], PSeed: rg.Uint64()}
 		switch rg.IntN(3) {
 		case 0:
 			cs.Build = "builder"
@@ -371,6 +388,7 @@ func runC02Batch(c *Cfg) {
 		default:
 			cs.Build, cs.FB = "compose", rg.IntN(3) != 0
 		}
+		cs.CtxLike = rg.IntN(4) == 0
 		if i%3 == 0 && cc >= 2 {
 			// stop mode, gated, adversarial release order: an item is mid-retry while another one fails for good
 			cs.Stop, cs.SetMode, cs.Gated, cs.Policy, cs.SleepUs = true, true, true, "random", 0
@@ -548,7 +566,7 @@ func runC11(c *Cfg) {
 										it[j].K = 1 // earlier items must not occupy the workers for an hour before the cancelling item starts
 									}
 								}
-								kind := []string{"cancel", "deadline"}[idx%2]
+								kind := []string{"cancel", "deadline", "cause"}[idx%3]
 								pol := []string{"holdfail", "random", "first", "last"}[idx%4]
 								if hour {
 									pol = []string{"random", "first", "last"}[idx%3]
